@@ -85,6 +85,52 @@ func fixHashLines(s string) string {
 	return s
 }
 
+// collisions are element names / texts the library's read loop and open sequence scan for.
+var collisions = []string{
+	"<hello>x</hello>", "<hello/>", "</hello>", "<nc:hello>y</nc:hello>",
+	`<hello xmlns="urn:ietf:params:xml:ns:netconf:base:1.0"><capabilities><capability>urn:ietf:params:netconf:base:1.1</capability></capabilities><session-id>7</session-id></hello>`,
+	"<capability>urn:ietf:params:netconf:base:1.0</capability>", "<capabilities>", "<session-id>7</session-id>", "<nc:session-id>8</nc:session-id>",
+	"<subscription-id>5</subscription-id>", `message-id="9"`, ` message-id="1" `, "<rpc>", "<rpc-reply>", "</rpc-reply>", "</hello>\n", "<hello>\n]]>",
+}
+
+// genPretty draws a pretty-printed, whitespace-rich body of about n bytes.
+func genPretty(r *rand.Rand, n int) string {
+	var b strings.Builder
+	depth := 1
+	for b.Len() < n {
+		ind := strings.Repeat([]string{"  ", "\t", "    "}[r.Intn(3)], depth)
+		switch r.Intn(7) {
+		case 0:
+			b.WriteString(ind + "<c" + fmt.Sprint(r.Intn(9)) + ">")
+			if depth < 6 {
+				depth++
+			}
+		case 1:
+			if depth > 1 {
+				depth--
+			}
+			b.WriteString(ind + "</c>")
+		case 2:
+			// blank / whitespace-only line
+			b.WriteString(strings.Repeat(" ", r.Intn(5)))
+		default:
+			b.WriteString(ind + "<leaf> " + randASCIIWord(r) + " </leaf>")
+		}
+		b.WriteString([]string{"", "", " ", "  ", "\t", " \t "}[r.Intn(6)]) // trailing blanks
+		b.WriteString([]string{"\n", "\n", "\n\n"}[r.Intn(3)])
+	}
+	return "\n" + b.String()
+}
+
+func randASCIIWord(r *rand.Rand) string {
+	const a = "abcdefghijklmnopqrstuvwxyz0123456789-_./ "
+	b := make([]byte, 1+r.Intn(20))
+	for i := range b {
+		b[i] = a[r.Intn(len(a))]
+	}
+	return string(b)
+}
+
 var errVariants = []string{"none", "none", "none", "rpc-error/error", "rpc-error/warning", "rpc-errors", "nc:rpc-error", "two"}
 
 func errElem(r *rand.Rand, variant string, hashLines bool) string {
@@ -114,6 +160,8 @@ type PayloadCfg struct {
 	BodyLen   int  // approximate
 	HashLines bool // lines may start with "##"
 	V10       bool // will be framed with the end-of-message delimiter
+	Pretty    bool // whitespace-rich body: pretty-printed, indented, trailing blanks, blank lines
+	Collide   bool // body holds elements/texts that collide with tokens the library scans for
 }
 
 // GenPayload draws a payload: [declaration] ws <rpc-reply message-id> body [rpc-error variant] </rpc-reply> ws.
@@ -129,6 +177,18 @@ func GenPayload(r *rand.Rand, cfg PayloadCfg) (p string, variant string) {
 		}
 		variant = errVariants[r.Intn(len(errVariants))]
 		body := genText(r, cfg.BodyLen, cfg.HashLines)
+		if cfg.Pretty {
+			body = genPretty(r, cfg.BodyLen)
+		}
+		if cfg.Collide {
+			for n := 1 + r.Intn(3); n > 0; n-- {
+				k := r.Intn(len(body) + 1)
+				for k > 0 && k < len(body) && body[k]&0xC0 == 0x80 {
+					k--
+				}
+				body = body[:k] + collisions[r.Intn(len(collisions))] + body[k:]
+			}
+		}
 		if variant != "none" {
 			k := r.Intn(len(body) + 1)
 			for k > 0 && k < len(body) && body[k]&0xC0 == 0x80 { // not inside a rune
